@@ -11,16 +11,20 @@
    do), and quantifying over lists of events quantifies over all interleavings.
 
    Code versions.  The record [code] says which of two historical defects the modelled code still has;
-   [code_now] is /repo as it is now (after fix commits 5d55599b and 53f68db6), [code_3e543e6e] is the code
+   [code_now] is /repo as it is now (after fix commits 5d55599b, 53f68db6 and 92fc55a7), [code_3e543e6e] is the code
    before those repairs (kept so that the _refuted theorems remain statements about the OLD behaviour):
    - [status_needs_worker]: LocalJob.status dereferenced _worker, which is None during (and after an escaped)
      synchronous run (repaired by 5d55599b: the worker is only consulted when there is one);
    - [cb_keyword_kept]: the progress_callback keyword was read but never removed from kwargs, so
      _handle_params rejected it (repaired by 53f68db6: kwargs.pop).
 
+   - [escapes_unhandled]: _call_fn_safe caught `Exception` only and formatted the exception with an unguarded
+     str(): a BaseException that is not an Exception, or an exception whose str() raises, left the wrapper without
+     a final status, and LocalJob.status "repaired" a running status with a dead worker to SUCCESS (repaired by
+     92fc55a7: `except BaseException`, guarded str(), ERROR recorded, only non-Exceptions re-raised; the dead-worker
+     repair records ERROR "The job thread stopped without reporting").
+
    Faithful to the code as it is, including:
-   - LocalJob.status "repairs" a running status to SUCCESS when the worker thread is dead (reachable when the
-     task raises something that is not an Exception, which _call_fn_safe does not catch);
    - a rejected execute keeps the partial updates of _delta_parameters and of _user_cb;
    - after a cancel request the user's progress callback is no longer invoked;
    - get_results on a failed job returns None when there is no result mapping function. *)
@@ -91,7 +95,8 @@ Definition is_running (s : rstatus) := match s with Running => true | _ => false
 Definition maybe_completed (s : rstatus) := match s with Success | Error | Canceled => true | _ => false end.
 Definition is_failed (s : rstatus) := match s with Error | Canceled => true | _ => false end.
 
-Inductive smsg := MNone | MCancel | MErr (ty msg : Z).     (* stop message: None / "User has canceled the job" / "T: m" *)
+Inductive smsg := MNone | MCancel | MErr (ty msg : Z) | MThreadDied.
+(* stop message: None / "User has canceled the job" / "T: m" / "The job thread stopped without reporting" *)
 Inductive wstate := WNone | WAlive | WDead.                (* self._worker: None / live thread / finished thread *)
 
 (* a result dictionary: shape 0 = {'results': X}, shape 1 = {'results_list': [...]} (see [entry]), any other
@@ -115,7 +120,11 @@ Definition conv (r : res) (m : kw) : res :=
         (map (conv_entry m) (entries r)).
 Definition convertible (z : Z) : bool := (z =? 0) || (z =? 1).
 
-Inductive outcome := ORet | ORaise (ty msg : Z) | OEscape.   (* OEscape: raises a BaseException that is not an Exception *)
+(* ORaise: an ordinary Exception.  OEscape: an exception the OLD wrapper did not turn into ERROR — a BaseException
+   that is not an Exception ([reraise] = true: the current wrapper records ERROR and re-raises it) or an exception
+   whose str() raises ([reraise] = false; its message is "T: <unprintable exception>").  (ty, msg) identify the
+   stop message the current code records. *)
+Inductive outcome := ORet | ORaise (ty msg : Z) | OEscape (ty msg : Z) (reraise : bool).
 (* the task: reports [steps] (progress in 1/1000, phase id; 0 = no phase); stops early with the partial
    payload [ppay] when [coop] and check_cancel.cancel_requested(answer) holds; otherwise ends with [out]. *)
 Record prog := mkprog { steps : list (Z * Z); out : outcome; coop : bool; pshape : Z; pay : Z; ppay : Z;
@@ -133,7 +142,7 @@ Inductive pcs :=
 | PStart                      (* execute accepted; fn not yet entered *)
 | PTask (rest : list (Z * Z)) (early : bool)   (* inside fn *)
 | PRet                        (* fn returned and self._results is assigned; finish pending *)
-| PExc (ty msg : Z)           (* fn raised an Exception; finish pending *)
+| PExc (ty msg : Z) (reraise : bool)   (* fn raised and the wrapper's handler is entered; finish pending *)
 | PSyncRet                    (* synchronous run finished; execute_sync is about to return get_results() *)
 | PDone.
 
@@ -155,9 +164,10 @@ Record st := mkst {
   sync_ret : option gres                                        (* environment: what execute_sync returned/raised *)
 }.
 
-Record code := mkcode { status_needs_worker : bool; cb_keyword_kept : bool }.
-Definition code_now : code := mkcode false false.            (* /repo after 5d55599b and 53f68db6 *)
-Definition code_3e543e6e : code := mkcode true true.         (* /repo before those repairs *)
+Record code := mkcode { status_needs_worker : bool; cb_keyword_kept : bool; escapes_unhandled : bool }.
+Definition code_now : code := mkcode false false false.             (* /repo after 5d55599b, 53f68db6, 92fc55a7 *)
+Definition code_before_92fc55a7 : code := mkcode false false true.  (* after the first two repairs only *)
+Definition code_3e543e6e : code := mkcode true true true.           (* /repo before all three repairs *)
 
 Record cfg := mkcfg { names : list Z; cmd0 : kw; mapp0 : kw; has_map : bool; ucb0 : option Z; ver : code }.
 
@@ -194,7 +204,9 @@ Definition do_status (c : cfg) (s : st) : st * sview :=
     | WNone => if status_needs_worker (ver c) then (s, SAttrErr)            (* old code: None.is_alive() *)
                else (s, SOk (status s) (progress s) (phase s) (msg s))     (* `self._worker is not None and ...` *)
     | WAlive => (s, SOk (status s) (progress s) (phase s) (msg s))
-    | WDead => let s' := stop_run s Success MNone in (s', SOk (status s') (progress s') (phase s') (msg s'))
+    | WDead => (* old code: stop_run(); now: stop_run(ERROR, "The job thread stopped without reporting") *)
+        let s' := if escapes_unhandled (ver c) then stop_run s Success MNone else stop_run s Error MThreadDied in
+        (s', SOk (status s') (progress s') (phase s') (msg s'))
     end
   else (s, SOk (status s) (progress s) (phase s) (msg s)).
 
@@ -269,13 +281,21 @@ Definition wk (c : cfg) (p : prog) (s : st) : st * obs :=
       if early then (set_pc (set_results s (Some (task_result p true (last (calls s) []))) (conv_pending s)) PRet, OReturned)
       else match out p with
       | ORet => (set_pc (set_results s (Some (task_result p false (last (calls s) []))) (conv_pending s)) PRet, OReturned)
-      | ORaise ty m => (set_pc s (PExc ty m), ORaised)
-      | OEscape => (* not caught by `except Exception`: the thread dies / execute_sync propagates *)
-          if sync s then (set_pc (set_sync_ret s GEscaped) PDone, OEscaped)
-          else (set_pc (set_worker s WDead) PDone, OEscaped)
+      | ORaise ty m => (set_pc s (PExc ty m false), ORaised)
+      | OEscape ty m rr =>
+          if escapes_unhandled (ver c) then
+            (* old code: not turned into a status: the thread dies / execute_sync propagates *)
+            if sync s then (set_pc (set_sync_ret s GEscaped) PDone, OEscaped)
+            else (set_pc (set_worker s WDead) PDone, OEscaped)
+          else (set_pc s (PExc ty m rr), ORaised)              (* `except BaseException`, guarded str() *)
       end
   | PRet => (finish_worker (if cancel s then stop_run s Canceled MCancel else stop_run s Success MNone), OFinished)
-  | PExc ty m => (finish_worker (stop_run s Error (MErr ty m)), OFinished)
+  | PExc ty m rr =>
+      let s1 := stop_run s Error (MErr ty m) in
+      if rr then   (* `if not isinstance(e, Exception): raise` after ERROR is recorded *)
+        if sync s then (set_pc (set_sync_ret s1 GEscaped) PDone, OEscaped)    (* execute_sync re-raises it *)
+        else (set_pc (set_worker s1 WDead) PDone, OFinished)                  (* the thread ends with it *)
+      else (finish_worker s1, OFinished)
   | PSyncRet => let (s1, g) := do_get c s in (set_pc (set_sync_ret s1 g) PDone, OSyncRet g)
   end.
 
